@@ -79,3 +79,21 @@ pub proof fn lemma_fold_max_is_the_maximum(init: int, told: Seq<int>)
       final(w).height >= old(w).height && final(w).height == final(w).height_read
       && r as int == final(w).height_read && r as int <= final(w).height && r as int >= old(w).height
 //@ end
+
+//@ fn block_watcher::poll_forever
+//    a service loop: termination is not claimed (it ends only on the shutdown signal)
+//@ attr #[verifier::exec_allows_no_decreases_clause]
+//@ ghostparam Tracked(w): Tracked<&mut World>, Tracked(p): Tracked<&mut PollGhost>
+//@ implicit [C06,C20]
+//@ requires#start
+      old(w).height >= old(w).height_read && old(p).sleeps == old(p).polls
+//@ ensures#never_decreases [C20,C04]
+      final(w).height >= old(w).height
+//@ loop 0
+//@ invariant#height_only_grows [C20]
+      w.height >= old(w).height && w.height >= w.height_read
+//@ invariant#every_wakeup_polled [C20]
+      p.sleeps == p.polls
+//@ proof after_stmt /^match poll_height\(/
+      ghost_polled(p);
+//@ end
